@@ -115,7 +115,7 @@ def m_sub(a, b):
     if A.any:
         if C.norm(B.listed) == ((0, 0x10FFFF),):
             raise S.Expect(T_EMPTY)         # nothing is left
-        return CV(True, B.listed)   # Any - X = ~X
+        return CV(True, B.listed, wglobal=B.wglobal, wordcls=B.wordcls)   # Any - X = ~X (and ~ of the global word class stays the global word class)
     if A.wordcls and A.wglobal:
         raise S.Expect(T_GLOBAL)
     rest = C.diff(A.listed, B.listed)
